@@ -520,3 +520,8 @@ pub fn blockwriter_run(
     run.output = o.1;
     Some(run)
 }
+
+/// `common::alc::get_fec_inline_payload_id` (payload id decoded with the codec of the packet's codepoint)
+pub fn get_fec_inline_payload_id(pkt: &alc::AlcPkt) -> crate::error::Result<alc::PayloadID> {
+    alc::get_fec_inline_payload_id(pkt)
+}
